@@ -1441,6 +1441,11 @@ func (c *Client) sendSingleMsg(client *smtp.Client, message *Msg) error {
 	}
 	_, err = message.WriteTo(writer)
 	if err != nil {
+		// The server is in DATA mode and has received a part of the message. SMTP offers no
+		// way to cancel a DATA transfer other than dropping the connection: closing the
+		// writer or sending any further command would terminate the data with "." and make
+		// the server accept the fragment. Therefore we abort the connection.
+		_ = client.Close()
 		return &SendError{
 			Reason: ErrWriteContent, errlist: []error{err}, isTemp: isTempError(err),
 			affectedMsg: message, errcode: errorCode(err),
